@@ -56,6 +56,23 @@ Definition vcf_field_gt (value : bytes) : option vcf_gt :=
   if bytes_eqb value [46] then Some None
   else match parse_gt value with Some l => Some (Some l) | None => None end.
 
+(* a whole VCF sample against the FORMAT keys of its record (repaired reader: Sample::get(GT) on the values noodles split at
+   ':'): the values are the pieces of the sample text; noodles rejects an empty value, more values than keys, duplicate
+   keys and a GT key that is not the first (it also checks the types of the OTHER values against the header: not
+   modelled, the generators keep them well-typed); trailing values may be dropped; the genotype is the first value when
+   the first key is GT, and there is none when the record has no GT key. Outer None: the record is an error. *)
+Fixpoint has_dup (l : list bytes) : bool :=
+  match l with [] => false | k :: t => existsb (bytes_eqb k) t || has_dup t end.
+Definition gt_key : bytes := [71; 84].                                      (* "GT" *)
+Definition vcf_sample_gt (keys : list bytes) (sample : bytes) : option vcf_gt :=
+  let vals := split_on 58 sample in
+  if has_dup keys || existsb (bytes_eqb gt_key) (tl keys) then None
+  else if (length keys <? length vals)%nat || existsb (fun v => match v with [] => true | _ :: _ => false end) vals then None
+  else match keys, vals with
+       | k0 :: _, v0 :: _ => if bytes_eqb k0 gt_key then vcf_field_gt v0 else Some None
+       | _, _ => Some None
+       end.
+
 (* ---------------------------------------------------------------- noodles-bcf: int8 vector -> GT text *)
 Definition eov : N := 129.                                               (* 0x81 *)
 Fixpoint bcf_gt_string_aux (first : bool) (vals : bytes) : bytes :=
